@@ -362,10 +362,13 @@ func Build(repo string) *Corpus {
 				ls := gopacket.NewPacket(b, t, gopacket.DecodeOptions{NoCopy: true}).Layers()
 				ok = len(ls) > 0 && ls[0].LayerType() != gopacket.LayerTypeDecodeFailure
 			})
-			if ok {
-				c.Seeds[t] = append([][]byte{b}, c.Seeds[t]...) // in front: consumers take the first seeds of a type
-				c.Stats["hand_made_seeds"]++
+			// kept whether or not it decodes: the encodings are well-formed by construction, so a tree on which one of them
+			// fails to decode is exactly a tree the checks should see it on
+			if !ok {
+				c.Stats["hand_made_seeds_that_do_not_decode"]++
 			}
+			c.Seeds[t] = append([][]byte{b}, c.Seeds[t]...) // in front: consumers take the first seeds of a type
+			c.Stats["hand_made_seeds"]++
 		}
 	}
 	// types the fixtures never reach: search a fixed PRNG sequence of short inputs for ones whose first layer decodes as
@@ -974,6 +977,18 @@ func handMade() map[gopacket.LayerType][][]byte {
 				0, 0x16, 0, 0x11, 0, 0, 0, 1, 1, 1, 0xcc, 0, 4, 10, 0, 0, 2},
 			{2, 0xb4, 0, 0, 0, 2, 0, 0x24, 0, 0, 0, 1, 2, 8, 0xaa, 0xaa, 3, 0, 0, 0, 8, 0, 0, 16, 0xfe, 0x80, 0, 0, 0, 0, 0, 0, 2, 0x0b, 0xbe, 0xff, 0xfe, 0x18, 0x9a, 0x41},
 		},
+		// RADIUS access-request whose EAP message is split over two EAP-Message attributes (as any EAP message above 253
+		// bytes is), followed by the message authenticator
+		layers.LayerTypeRADIUS: {func() []byte {
+			eap := []byte{2, 9, 0, 16, 1, 'u', 's', 'e', 'r', '@', 'e', 'x', '.', 'o', 'r', 'g'}
+			b := append([]byte{1, 0x2a, 0, 0}, make([]byte, 16)...)
+			b = append(b, 1, 6, 'u', 's', 'e', 'r')
+			b = append(append(b, 79, 10), eap[:8]...)
+			b = append(append(b, 79, 10), eap[8:]...)
+			b = append(append(b, 80, 18), make([]byte, 16)...)
+			b[3] = byte(len(b))
+			return b
+		}()},
 		layers.LayerTypeRadioTap: {rtap(0x20, qos), rtap(0x30, append(append([]byte{}, wds...), 1, 2, 3, 4))},
 		layers.LayerTypeSCTP: {sctp(hb), sctp(hbAck), sctp(sErr), sctp(abort), sctp(unk), sctp(unkSkip, data), sctp(cookieAck), sctp(shutAck), sctp(shutDone), sctp(shut),
 			sctp(cookie, data), sctp(initC), sctp(initAck), sctp(sack, data), sctp(data, sack, hb)},
@@ -1164,7 +1179,15 @@ func dnsZoo() [][]byte {
 		[][]byte{rr(www, 16, 1, 60, cat(cs("v=spf1"), cs("include:example.net"), cs("-all")))},
 		nil,
 		[][]byte{rr([]byte{0}, 41, 1232, 0, cat(u16(10), u16(8), []byte{1, 2, 3, 4, 5, 6, 7, 8}, u16(12), u16(3), []byte{0, 0, 0})), rr(ex, 99, 1, 5, []byte{3, 'a', 'b', 'c'})})
-	return [][]byte{one, two, three}
+	// compression as real servers write it: the question name at offset 12 holds a label with a literal dot and one with
+	// a backslash; owners are pure pointers, record data are literal labels followed by a pointer into the question
+	qn := name("ex.ample", "back\\slash", "com") // at offset 12: labels at 12 (8), 21 (10), 32 (3)
+	ptr := func(off int) []byte { return []byte{0xc0 | byte(off>>8), byte(off)} }
+	four := msg(0x5151, cat(qn, u16(255), u16(1)),
+		[][]byte{rr(ptr(12), 5, 1, 60, cat([]byte{3, 'w', 'w', 'w'}, ptr(12))), rr(ptr(12), 15, 1, 60, cat(u16(5), []byte{4, 'm', 'a', 'i', 'l', 2, 'm', 'x'}, ptr(21)))},
+		[][]byte{rr(ptr(21), 2, 1, 60, cat([]byte{3, 'n', 's', '1'}, ptr(12)))},
+		[][]byte{rr(cat([]byte{4, '_', 's', 'i', 'p'}, ptr(12)), 33, 1, 60, cat(u16(1), u16(2), u16(5060), []byte{3, 's', 'i', 'p'}, ptr(32)))})
+	return [][]byte{one, two, three, four}
 }
 
 // LongRepeats returns k variants of seed in which a short region (1..32 bytes at a PRNG position) is repeated until the
